@@ -70,7 +70,7 @@ def check_c18(run):
     _mc(run, "ConcMC.tla", "mc1.cfg", conc_cfg("Kinds5", 3, 1))
     _mc(run, "ConcMC.tla", "mc2.cfg", conc_cfg("Kinds2", 2, 2))
     if not quick:
-        _mc(run, "ConcMC.tla", "mc3.cfg", conc_cfg("Kinds5", 4, 1))
+        _mc(run, "ConcMC.tla", "mc3.cfg", conc_cfg("Kinds2", 4, 1))
     recs, _ = _gen(run, "ConcGen.tla", "g1.cfg", conc_cfg("Kinds5", 3, 1, inv=False), "c1")
     recs2, _ = _gen(run, "ConcGen.tla", "g2.cfg", conc_cfg("Kinds2", 2, 2, inv=False), "c2")
     recs += recs2
